@@ -43,7 +43,8 @@ OBLIGATIONS = {"dtype:int": 40, "dtype:uint": 40, "dtype:float": 30, "dtype:64bi
                "catchment-dict": 20, "catchment-dict:inlets": 10,
                "nodata:nondefault": 40, "values:extreme": 20, "layout-variant": 30,
                "resave": 30, "clip:corner-on-edge": 10,
-               "clip:dict-clone": 20, "bigendian:resave": 10}
+               "clip:dict-clone": 20, "bigendian:resave": 10,
+               "filename:special-characters": 50, "clip:grid-moved-after-use": 10}
 
 DTYPES = [np.int8, np.int16, np.int32, np.int64, np.uint8, np.uint16, np.uint32,
           np.uint64, np.float16, np.float32, np.float64]
@@ -193,7 +194,14 @@ def run_case(ctx, case):
                              "stored": np.asarray(gr.data).ravel()[:6].tolist()})
     stored = np.array(gr.data, copy=True)
     wd = workdir()
-    base = wd / f"g{ctx.evaluations}"
+    # file names as they occur in archives of sub-grids: brackets, blanks, dots
+    sub = wd / f"case{ctx.evaluations}"
+    sub.mkdir(parents=True, exist_ok=True)
+    stem = ["g", "grid_drainage[lake_eyre]", "g", "dem 30m", "a.b.c", "g",
+            "x[1]", "run(2)"][int(case["seed"]) % 8]
+    if stem != "g":
+        ctx.tag("filename:special-characters")
+    base = sub / f"{stem}{ctx.evaluations}"
     fbil = str(base) + ".bil"
     fhdr = str(base) + ".hdr"
     try:
@@ -316,7 +324,9 @@ def run_case(ctx, case):
                                   f"load|big-endian|{lname}|raises", case,
                                   {"exc": repr(e)})
     finally:
-        for f in wd.glob(base.name + "*"):
+        import shutil as _sh
+        _sh.rmtree(sub, ignore_errors=True)
+        for f in ():
             try:
                 f.unlink()
             except OSError:
@@ -364,6 +374,26 @@ def run_case(ctx, case):
                   lambda: {"dtype": str(np.dtype(cd)), "own_dtype": str(dt)})
         gr.data = before
     # ----------------------------------------------------------------- clip ----
+    if nrows * ncols >= 2 and int(case["seed"]) % 4 == 1:
+        # the grid was used at another position / cell size first, then moved onto the
+        # geometry under test by assigning its attributes (values untouched)
+        try:
+            x0, y0, c0_ = float(gr.xllcorner), float(gr.yllcorner), float(gr.cellsize)
+            gr.xllcorner = x0 + 2.5 * c0_
+            gr.yllcorner = y0 - 1.25 * c0_
+            gr.cellsize = c0_ * 2.0
+            gr.cell2coord(np.arange(min(nrows * ncols, 3)))
+            gr.coord2cell(gr.cell2coord(np.arange(min(nrows * ncols, 3))))
+            _ = gr.xvalues, gr.yvalues
+            try:
+                gr.clip(float(gr.xllcorner) + 0.1 * c0_, float(gr.yllcorner) + 0.1 * c0_,
+                        float(gr.xllcorner) + 0.3 * c0_, float(gr.yllcorner) + 0.3 * c0_)
+            except Exception:
+                pass
+            gr.xllcorner, gr.yllcorner, gr.cellsize = x0, y0, c0_
+            ctx.tag("clip:grid-moved-after-use")
+        except AttributeError:
+            pass
     if nrows * ncols >= 2:
         ctx.tag("clip")
         ctx.api("Grid.clip")
